@@ -480,9 +480,150 @@ func reachable(f *cfgx.Func, node ast.Node, dec func(ast.Expr) (bool, bool)) boo
 	}
 	r := f.Explore(0, 0, cfgx.Cuts{Decide: dec})
 	if n := nodeHolding(f, node); n != nil {
-		return r.Passed(n)
+		if !r.Passed(n) {
+			return false
+		}
+		// go/cfg keeps `a && b` in one node: b is evaluated only if a holds (a || b: only if a does not)
+		return !shortCircuitExcludes(n, node, dec)
 	}
 	return true
+}
+
+// innerMapMadeBefore: see mapNonNil.
+func innerMapMadeBefore(info *types.Info, fd *ast.FuncDecl, m *ast.IndexExpr) (bool, string) {
+	text := types.ExprString(m)
+	mentioned := map[types.Object]bool{}
+	ast.Inspect(m, func(n ast.Node) bool {
+		if id, ok := n.(*ast.Ident); ok {
+			if o := info.ObjectOf(id); o != nil {
+				mentioned[o] = true
+			}
+		}
+		return true
+	})
+	isMake := func(e ast.Expr) bool {
+		switch r := ast.Unparen(e).(type) {
+		case *ast.CallExpr:
+			if fid, ok := r.Fun.(*ast.Ident); ok && fid.Name == "make" {
+				return true
+			}
+		case *ast.CompositeLit:
+			return true
+		}
+		return false
+	}
+	guard := func(st ast.Stmt) bool {
+		is, ok := st.(*ast.IfStmt)
+		if !ok || is.Init != nil || is.Else != nil || len(is.Body.List) != 1 {
+			return false
+		}
+		be, ok := ast.Unparen(is.Cond).(*ast.BinaryExpr)
+		if !ok || be.Op != token.EQL || types.ExprString(be.X) != text {
+			return false
+		}
+		if id, ok := ast.Unparen(be.Y).(*ast.Ident); !ok || id.Name != "nil" {
+			return false
+		}
+		as, ok := is.Body.List[0].(*ast.AssignStmt)
+		return ok && as.Tok == token.ASSIGN && len(as.Lhs) == 1 && len(as.Rhs) == 1 && types.ExprString(as.Lhs[0]) == text && isMake(as.Rhs[0])
+	}
+	writes := func(st ast.Stmt) bool {
+		hit := false
+		ast.Inspect(st, func(n ast.Node) bool {
+			switch x := n.(type) {
+			case *ast.AssignStmt:
+				for _, l := range x.Lhs {
+					if id, ok := ast.Unparen(l).(*ast.Ident); ok && mentioned[info.ObjectOf(id)] {
+						hit = true
+					}
+					if types.ExprString(l) == text {
+						hit = true
+					}
+				}
+			case *ast.IncDecStmt:
+				if id, ok := ast.Unparen(x.X).(*ast.Ident); ok && mentioned[info.ObjectOf(id)] {
+					hit = true
+				}
+			case *ast.UnaryExpr:
+				if id, ok := ast.Unparen(x.X).(*ast.Ident); ok && x.Op == token.AND && mentioned[info.ObjectOf(id)] {
+					hit = true
+				}
+			case *ast.CallExpr:
+				if fid, ok := x.Fun.(*ast.Ident); ok && (fid.Name == "delete" || fid.Name == "clear") {
+					hit = true
+				}
+			}
+			return true
+		})
+		return hit
+	}
+	found := false
+	ast.Inspect(fd.Body, func(n ast.Node) bool {
+		blk, ok := n.(*ast.BlockStmt)
+		if !ok || found {
+			return !found
+		}
+		for i, st := range blk.List {
+			if !(st.Pos() <= m.Pos() && m.End() <= st.End()) {
+				continue
+			}
+			if _, nested := st.(*ast.AssignStmt); !nested {
+				continue // the store is deeper: look in the inner block
+			}
+			for j := i - 1; j >= 0; j-- {
+				if guard(blk.List[j]) {
+					found = true
+					return false
+				}
+				if writes(blk.List[j]) {
+					break
+				}
+			}
+		}
+		return true
+	})
+	if found {
+		return true, "the inner map is made, if missing, earlier in the same statement list (" + text + " == nil → make)"
+	}
+	return false, ""
+}
+
+// shortCircuitExcludes: inside root, target sits in the right operand of an && whose left operand cannot
+// be true under dec, or of an || whose left operand cannot be false.
+func shortCircuitExcludes(root, target ast.Node, dec func(ast.Expr) (bool, bool)) bool {
+	excluded := false
+	var path []ast.Node
+	ast.Inspect(root, func(n ast.Node) bool {
+		if n == nil {
+			path = path[:len(path)-1]
+			return true
+		}
+		path = append(path, n)
+		if n == target {
+			for i := 0; i+1 < len(path); i++ {
+				be, ok := path[i].(*ast.BinaryExpr)
+				if !ok || (be.Op != token.LAND && be.Op != token.LOR) {
+					continue
+				}
+				inY := false
+				ast.Inspect(be.Y, func(y ast.Node) bool {
+					if y == target {
+						inY = true
+					}
+					return !inY
+				})
+				if !inY {
+					continue
+				}
+				canT, canF := dec(be.X)
+				if (be.Op == token.LAND && !canT) || (be.Op == token.LOR && !canF) {
+					excluded = true
+				}
+			}
+		}
+		return true
+	})
+	return excluded
 }
 
 func indexDischarged(info *types.Info, fd *ast.FuncDecl, f *cfgx.Func, x *ast.IndexExpr, loops []ast.Stmt) (bool, string) {
@@ -535,7 +676,160 @@ func indexDischarged(info *types.Info, fd *ast.FuncDecl, f *cfgx.Func, x *ast.In
 			}
 		}
 	}
+	// last := len(x) - c (c >= 1), defined once, and every path to x[last] excludes last < 0
+	if c, ok := lenMinusConstDef(info, fd, iv, target); ok {
+		if !reachable(f, x, identRangeOracle(info, iv, -c, -1)) {
+			return true, fmt.Sprintf("index is len(%s)-%d, defined once, and a dominating guard excludes negative values", target, c)
+		}
+		return false, fmt.Sprintf("index is len(%s)-%d and no guard excludes an empty %s on every path", target, c, target)
+	}
 	return false, "index variable is not bounded by the length of the indexed value"
+}
+
+// lenMinusConstDef: iv is defined exactly once in fd, as `len(target) - c` with a constant c >= 1, and never
+// assigned again.
+func lenMinusConstDef(info *types.Info, fd *ast.FuncDecl, iv types.Object, target string) (int64, bool) {
+	var def ast.Expr
+	writes := 0
+	ast.Inspect(fd, func(n ast.Node) bool {
+		switch st := n.(type) {
+		case *ast.AssignStmt:
+			for i, l := range st.Lhs {
+				if id, ok := ast.Unparen(l).(*ast.Ident); ok && info.ObjectOf(id) == iv {
+					writes++
+					if len(st.Lhs) == len(st.Rhs) {
+						def = st.Rhs[i]
+					} else {
+						def = nil
+					}
+				}
+			}
+		case *ast.IncDecStmt:
+			if id, ok := ast.Unparen(st.X).(*ast.Ident); ok && info.ObjectOf(id) == iv {
+				writes += 2
+			}
+		case *ast.UnaryExpr:
+			if id, ok := ast.Unparen(st.X).(*ast.Ident); ok && st.Op == token.AND && info.ObjectOf(id) == iv {
+				writes += 2
+			}
+		case *ast.ValueSpec:
+			for i, nm := range st.Names {
+				if info.ObjectOf(nm) == iv {
+					writes++
+					if i < len(st.Values) {
+						def = st.Values[i]
+					}
+				}
+			}
+		}
+		return true
+	})
+	if writes != 1 || def == nil {
+		return 0, false
+	}
+	be, ok := ast.Unparen(def).(*ast.BinaryExpr)
+	if !ok || be.Op != token.SUB {
+		return 0, false
+	}
+	op, ok := LenOperand(info, fd, be.X)
+	if !ok || types.ExprString(op) != target {
+		return 0, false
+	}
+	tv := info.Types[be.Y]
+	if tv.Value == nil || tv.Value.Kind() != constant.Int {
+		return 0, false
+	}
+	c, exact := constant.Int64Val(tv.Value)
+	if !exact || c < 1 {
+		return 0, false
+	}
+	return c, true
+}
+
+// identRangeOracle decides comparisons of the variable iv with integer constants under the assumption
+// lo <= iv <= hi; everything else can go both ways.
+func identRangeOracle(info *types.Info, iv types.Object, lo, hi int64) func(ast.Expr) (bool, bool) {
+	isIV := func(e ast.Expr) bool {
+		id, ok := ast.Unparen(e).(*ast.Ident)
+		return ok && info.ObjectOf(id) == iv
+	}
+	constInt := func(e ast.Expr) (int64, bool) {
+		tv := info.Types[e]
+		if tv.Value == nil || tv.Value.Kind() != constant.Int {
+			return 0, false
+		}
+		return constant.Int64Val(tv.Value)
+	}
+	var ev func(e ast.Expr) (bool, bool)
+	ev = func(e ast.Expr) (bool, bool) {
+		switch x := ast.Unparen(e).(type) {
+		case *ast.UnaryExpr:
+			if x.Op == token.NOT {
+				t, f := ev(x.X)
+				return f, t
+			}
+		case *ast.BinaryExpr:
+			switch x.Op {
+			case token.LAND:
+				lt, lf := ev(x.X)
+				rt, rf := ev(x.Y)
+				return lt && rt, lf || (lt && rf)
+			case token.LOR:
+				lt, lf := ev(x.X)
+				rt, rf := ev(x.Y)
+				return lt || (lf && rt), lf && rf
+			}
+			op := x.Op
+			var k int64
+			ok := false
+			if isIV(x.X) {
+				k, ok = constInt(x.Y)
+			} else if isIV(x.Y) {
+				k, ok = constInt(x.X)
+				switch op {
+				case token.LSS:
+					op = token.GTR
+				case token.GTR:
+					op = token.LSS
+				case token.LEQ:
+					op = token.GEQ
+				case token.GEQ:
+					op = token.LEQ
+				}
+			}
+			if !ok {
+				return true, true
+			}
+			canT, canF := false, false
+			for v := lo; v <= hi; v++ {
+				var b bool
+				switch op {
+				case token.LSS:
+					b = v < k
+				case token.LEQ:
+					b = v <= k
+				case token.GTR:
+					b = v > k
+				case token.GEQ:
+					b = v >= k
+				case token.EQL:
+					b = v == k
+				case token.NEQ:
+					b = v != k
+				default:
+					return true, true
+				}
+				if b {
+					canT = true
+				} else {
+					canF = true
+				}
+			}
+			return canT, canF
+		}
+		return true, true
+	}
+	return ev
 }
 
 // madeWithLen: the (local) slice expression was defined by make(T, bound) and never reassigned otherwise.
@@ -671,6 +965,12 @@ func accessorDischarged(info *types.Info, fd *ast.FuncDecl, call *ast.CallExpr, 
 
 func mapNonNil(prog *load.Program, info *types.Info, fd *ast.FuncDecl, m ast.Expr) (bool, string) {
 	switch x := ast.Unparen(m).(type) {
+	case *ast.IndexExpr:
+		// a map held in a map: `if outer[k] == nil { outer[k] = make(...) }` earlier in the same statement
+		// list, nothing in between assigning to a variable the expression mentions
+		if ok, why := innerMapMadeBefore(info, fd, x); ok {
+			return true, why
+		}
 	case *ast.Ident:
 		v := info.ObjectOf(x)
 		// a local every definition of which is a make or a literal (a declaration without a value leaves
